@@ -23,10 +23,9 @@ CFG3 = {
 def models(tier):
     out = []
     msgs = ["rq:3:own", "rq:4:own", "rq:4:r2", "rq:3:r2", "rq:9:own", "rq:3:foreign", "rq:9:foreign", "rq:3:own:missing", "rq:9:foreign:missing",
-            "rq:3:own:missing:T", "rq:3:own:T", "dwr", "dwa", "untyped", "req_big"]
-    alpha = []
-    for c in (0, 1):
-        alpha += [("m", c, n) for n in msgs]
+            "rq:3:own:missing:T", "rq:3:own:T", "dwr", "dwa", "untyped", "req_big", "req_noP"]
+    alpha = [("m", 0, n) for n in msgs]
+    alpha += [("m", 1, n) for n in ("rq:3:own", "rq:4:own", "rq:4:r2", "rq:3:r2", "rq:9:own", "rq:3:own:missing", "dwr")]      # the other peer: what differs per peer
     alpha += [("m", 0, "dpr"), ("ans", 0), ("ans", 1), ("tick", 2), ("send", 0, "foreign"), ("send", 2, "r2"), ("send", 0, "own")]
     out.append(monitors.ScenarioModel("three-apps-two-peers", CFG3, alpha, MONS, max_socks=2,
                                       prelude=[("accept",), ("m", 0, "cer_p0"), ("accept",), ("m", 1, "cer_p1")]))
